@@ -2190,6 +2190,15 @@ impl<'a> Parser<'a> {
             TokenKind::Namespace | TokenKind::Module => Some(Box::new(
                 Statement::NamespaceDeclaration(Box::new(self.parse_namespace()?)),
             )),
+            // export declare const x: T; export declare function f(): void; ... export nothing
+            TokenKind::Declare => Some(Box::new(self.parse_declare_statement()?)),
+            TokenKind::Abstract => {
+                self.advance(); // consume 'abstract'
+                let mut class_decl = self.parse_class_declaration()?;
+                class_decl.abstract_ = true;
+                class_decl.decorators = decorators;
+                Some(Box::new(Statement::ClassDeclaration(Box::new(class_decl))))
+            }
             _ => return Err(self.unexpected_token("export declaration")),
         };
 
